@@ -40,7 +40,7 @@ def cases(draw):
     if draw(st.integers(0, 7)) == 0:
         recipe, params = draw(gen.resolution_case())
     else:
-        recipe = draw(gen.problem_recipe(densities=(10, 10, 6, 12), styles=True, offsets=True))
+        recipe = draw(gen.problem_recipe(densities=(10, 10, 6, 12), styles=True, offsets=True, huge=True))
         iters = st.one_of(st.sampled_from([1, 2, 3, 30, 100, 300]), st.integers(5, 300))
         params = draw(gen.solver_params(recipe["n"], recipe["density"], iters, cheap=False))
     sp = draw(gen.start_points(recipe))
@@ -77,7 +77,7 @@ def body(case):
 def _drive(case, run):
     # runs pushed to the float resolution are the ones in which a degenerate interval can send the method or the
     # queue into a loop that evaluates nothing: bound every call by executed lines
-    run.line_guard = case["params"]["eps"] < 1e-12
+    run.line_guard = case["params"]["eps"] < 1e-12 or bool(case["recipe"].get("huge"))
     steps = 0
     for op in case["ops"]:
         try:
@@ -144,6 +144,8 @@ def _drive(case, run):
         classes_extra.append("observer-queries-evolvent")
     if case.get("painter"):
         classes_extra.append("painter=" + case["painter"]["kind"])
+    if case["recipe"].get("huge"):
+        classes_extra.append("values-of-magnitude-1e150-and-more")
     classes = classes_extra + ["N=%d" % run.n, "calls=%d" % min(steps, 5),
                "trials>=8" if len(hist) >= 8 else "trials<8", "interior-insert" if between else "no-interior-insert"]
     return nontrivial, classes, {"case": case, "trials": len(hist), "interior_inserts": between}
